@@ -215,7 +215,7 @@ func (ssam *SecretSharesAccusationsMessage) Unmarshal(bytes []byte) error {
 
 	accusedMembersKeys, err := unmarshalPrivateKeyMap(pbMsg.AccusedMembersKeys)
 	if err != nil {
-		return nil
+		return err
 	}
 
 	ssam.accusedMembersKeys = accusedMembersKeys
@@ -316,7 +316,7 @@ func (pam *PointsAccusationsMessage) Unmarshal(bytes []byte) error {
 
 	accusedMembersKeys, err := unmarshalPrivateKeyMap(pbMsg.AccusedMembersKeys)
 	if err != nil {
-		return nil
+		return err
 	}
 
 	pam.accusedMembersKeys = accusedMembersKeys
